@@ -76,6 +76,18 @@ def run(ctx):
                 ctx.tally('toy_pvalues_clb', 'zero' if fb == 0 else 'positive')
                 if got3[0] != a / b or got3[1] != fb or (fb > 0 and got3[2] != (a / b) / fb):
                     ctx.fail('C14/pvalues-tail-fractions', 'ToyCalculator.pvalues does not return the exact tail fractions of the two toy distributions', dict(inp, bkg_samples=bs), got3, [a / b, fb])
+                # the expected band from two distributions that need not have the same number of toys (toys topped up or merged from several
+                # runs): each background toy's three p-values are tail fractions of the distribution they refer to; the band consists of
+                # their percentiles at Φ(-2) … Φ(2)
+                if not nonfinite:
+                    with np.errstate(all='ignore'):
+                        gotb = [[float(np.asarray(x)) for x in row] for row in calcmod.ToyCalculator.expected_pvalues(tc, dist, bdist)]
+                    per = [[sum(1 for x in samples if x >= t) / len(samples), sum(1 for x in bs if x >= t) / len(bs)] for t in bs]
+                    per = np.asarray([[u, w, u / w] for u, w in per])
+                    wantb = np.percentile(per, [2.27501319, 15.86552539, 50.0, 84.13447461, 97.72498681], axis=0).T
+                    ctx.count(); ctx.tally('toy_expected_sizes', 'equal' if len(bs) == len(samples) else 'different')
+                    if not np.allclose(np.asarray(gotb), wantb, rtol=1e-12, atol=1e-15):
+                        ctx.fail('C14/expected-tail-fractions', 'ToyCalculator.expected_pvalues is not made of the percentiles of per-toy tail fractions of the two distributions', dict(inp, bkg_samples=bs), gotb, wantb.tolist())
             want = sum(1 for x in samples if x >= v) / len(samples)
             if p != want or not (0.0 <= p <= 1.0):
                 ctx.fail('C14/tail-fraction', 'empirical p-value is not the fraction of samples >= value', inp, p, want)
